@@ -41,7 +41,8 @@ ASSUMPTIONS = [
 PROBES = ["insert_into_copy_then_query_original", "insert_through_reverse_view",
           "insert_fresh_tag_multichar_name", "filter_to_empty", "reinsert_with_fewer_tags",
           "three_handle_chain", "insert_into_sharing_family", "facet_collection_used",
-          "read_with_tag_filter", "package_without_tags", "line_with_several_packages"]
+          "read_with_tag_filter", "package_without_tags", "line_with_several_packages",
+          "read_again_on_live_handle"]
 
 Q_CHARS = "C20-insert-fresh-tag-stores-characters"
 Q_SHARE = "C20-sharing-derivative-mutation"
@@ -241,6 +242,7 @@ def generate(seed, run, tier):
     w_ins = rs.choice([2, 4, 8])
     w_der = rs.choice([1, 2, 4])
     w_drop = rs.choice([0, 1])
+    w_reread = rs.choice([0, 0, 1])
     sim = _Sim(world)
     steps = []
     for _ in range(nsteps):
@@ -248,7 +250,8 @@ def generate(seed, run, tier):
         if nh == 0:
             break
         h = rq.randrange(nh)
-        kind = rq.choice(["insert"] * w_ins + ["derive"] * w_der + ["drop"] * w_drop)
+        kind = rq.choice(["insert"] * w_ins + ["derive"] * w_der + ["drop"] * w_drop +
+                         ["reread"] * w_reread)
         if kind == "drop" and nh <= 1:
             kind = "insert"
         if kind == "derive" and nh >= 6:
@@ -280,6 +283,14 @@ def generate(seed, run, tier):
                 st["arg"] = _gen_pred(rq, right)
             elif op.startswith("choose_packages"):
                 st["arg"] = {"set": sorted(rq.sample(left, rq.randint(0, 4)))}
+        elif kind == "reread":
+            pk = list(PK)
+            rq.shuffle(pk)
+            ls = []
+            for p_ in pk[:rq.choice([0, 1, 2, 4])]:
+                tg = sorted(set(rq.choice(TG) for _ in range(rq.choice([0, 1, 2]))))
+                ls.append(p_ + (": " + ", ".join(tg) if tg else ""))
+            st = {"h": h, "op": "reread", "lines": ls}
         else:
             st = {"h": h, "op": "drop"}
         steps.append(st)
@@ -353,6 +364,16 @@ class _Sim(object):
             self.family.append(self.family[s] if op in SHARING else len(self.family))
             self.handles.append((len(self.ideal) - 1, False))
             return ("derive", h)
+        if op == "reread":
+            # DB.read() on a handle that is already in use: this object now holds the new
+            # collection; views derived earlier keep what they had
+            w2 = {"lines": st["lines"], "tag_filter": None, "empty_db": False}
+            fresh = _Sim(w2)
+            self.ideal.append(fresh.ideal[0])
+            self.alias.append(fresh.alias[0])
+            self.family.append(len(self.family))
+            self.handles[h] = (len(self.ideal) - 1, False)
+            return ("reread", h)
         return None
 
 
@@ -522,6 +543,11 @@ def execute(case):
                     log.add(si, "known", Q_CHARS)
                     break
             check(si, "insert", s)
+        elif op == "reread":
+            sut[hi].read(list(st["lines"]))
+            log.add(si, hi, "reread", st["lines"])
+            out.probe("read_again_on_live_handle")
+            check(si, "reread", None)
         elif op == "drop":
             del sut[hi]
             log.add(si, hi, "drop")
